@@ -90,17 +90,21 @@ def wrLoop (batch fuel : Nat) : List Bytes → WrState → Option WrState
     | none => none
     | some st' => wrLoop batch fuel r st'
 
-/-- `lbuf_wr(lb, fd, beg, end)`: returns (return value, bytes written to the descriptor from offset 0,
-    truncate length if `ftruncate` was reached) -/
-def wr (lines : List Bytes) (b e batch fuel : Nat) (sched : List WOut) : Option (Nat × Bytes × Option Nat) :=
+/-- the loop of `lbuf_wr` and its final flush: the final state (`ok = false` when a write failed) -/
+def wrFinal (lines : List Bytes) (b e batch fuel : Nat) (sched : List WOut) : Option WrState :=
   if e > lines.length then none else
   match wrLoop batch fuel ((lines.drop b).take (e - b)) ({ sched := sched } : WrState) with
   | none => none
   | some st =>
-    if !st.ok then some (1, st.out, none) else
-    match (if st.buf.length > 0 then flush fuel st else some st) with
-    | none => none
-    | some st' => if !st'.ok then some (1, st'.out, none) else some (0, st'.out, some st'.sz)
+    if !st.ok then some st else
+    if st.buf.length > 0 then flush fuel st else some st
+
+/-- `lbuf_wr(lb, fd, beg, end)`: returns (return value, bytes written to the descriptor from offset 0,
+    truncate length if `ftruncate` was reached) -/
+def wr (lines : List Bytes) (b e batch fuel : Nat) (sched : List WOut) : Option (Nat × Bytes × Option Nat) :=
+  match wrFinal lines b e batch fuel sched with
+  | none => none
+  | some st => if !st.ok then some (1, st.out, none) else some (0, st.out, some st.sz)
 
 /-- the target file after the descriptor (opened without O_TRUNC, offset 0) received `out` and, if
     reached, `ftruncate(sz)` -/
